@@ -149,7 +149,7 @@ Definition dispatch (op : string) (args : list tree) : tree :=
       | None => bad end
   | "eq_hash", [a; b] => with_sid a (fun x => with_sid b (fun y =>
       N [L "ok"; N [t_bool (sid_eqb x y); t_bool (String.eqb (repr x) (repr y)); t_bool (sid_eqb x y);
-                    t_bool (sid_eq_str x (s_string y)); t_bool (sid_eqb x y)]]))
+                    t_bool (sid_eq_str x (s_string y)); t_bool (sid_eqb x y); L (uri x); L (uri y)]]))
   | "sorted", [N srcs] =>
       match opt_all (map parse_src srcs) with
       | Some l => t_out (fun xs => of_strs (sort_s (map s_string xs))) (mapM (sid_factory Ld) l)
